@@ -461,6 +461,138 @@ theorem dispatched_iff (srv : Option Server) (isDescribe : Bool) (c : Option Byt
         exists_eq_left']
       exact gate_iff s c
 
+/-! ### Configuration histories -/
+
+/-- The last call of a history that did not panic (`""` or a canonical version). -/
+def lastEffective : List Bytes → Option Bytes
+  | [] => none
+  | v :: r =>
+    match lastEffective r with
+    | some w => some w
+    | none => if setVersion v = .panic then none else some v
+
+/-- The declaration a single accepted call leaves behind. -/
+def declOf (v : Bytes) : Option Server :=
+  match setVersion v with
+  | .set s => some s
+  | _ => none
+
+theorem foldl_setStep : ∀ (vs : List Bytes) (st : Option Server),
+    vs.foldl setStep st = match lastEffective vs with
+      | none => st
+      | some v => declOf v
+  | [], st => rfl
+  | v :: r, st => by
+    simp only [List.foldl_cons, lastEffective]
+    rw [foldl_setStep r (setStep st v)]
+    cases hl : lastEffective r with
+    | some w => rfl
+    | none =>
+      simp only
+      cases hs : setVersion v with
+      | unset => simp [setStep, declOf, hs]
+      | set s => simp [setStep, declOf, hs]
+      | panic => simp [setStep, hs]
+
+/-- **history_last** — after ANY sequence of `SetProtocolVersion` calls (declare, re-declare,
+clear with "", invalid values that panic, repeats) the server's state is exactly what the LAST
+non-panicking call declared: nothing if there was none or it was `""`. -/
+theorem history_last (vs : List Bytes) :
+    configureSeq vs = match lastEffective vs with
+      | none => none
+      | some v => declOf v :=
+  foldl_setStep vs none
+
+/-- **dispatched_iff_history** — the property over every configuration history: a call is
+dispatched iff it is `__describe__`, or the last effective declaration is absent / `""`, or the
+request declares a canonical version with that declaration's major and minor. -/
+theorem dispatched_iff_history (vs : List Bytes) (isDescribe : Bool) (c : Option Bytes) :
+    gate (configureSeq vs) isDescribe c = .allow ↔
+      isDescribe = true ∨ (∀ v, lastEffective vs = some v → v = []) ∨
+        ∃ v M m p, lastEffective vs = some v ∧ v = render M m p ∧
+          ∃ p', c = some (render M m p') := by
+  rw [dispatched_iff, history_last]
+  cases hl : lastEffective vs with
+  | none => simp
+  | some v =>
+    simp only [Option.some.injEq, forall_eq']
+    have spec := setVersion_spec v
+    constructor
+    · rintro (h | h | ⟨s, hs, M, m, p, hc, hM, hm⟩)
+      · exact Or.inl h
+      · -- declOf v = none: v = "" (a panicking v is never `lastEffective`)
+        right; left
+        unfold declOf at h
+        cases hv : setVersion v with
+        | unset => exact spec.1.mp hv
+        | set s => simp [hv] at h
+        | panic =>
+          exfalso
+          -- lastEffective never returns a panicking value
+          have : ∀ (l : List Bytes) (w : Bytes), lastEffective l = some w → setVersion w ≠ .panic := by
+            intro l
+            induction l with
+            | nil => intro w hw; simp [lastEffective] at hw
+            | cons a r ih =>
+              intro w hw
+              simp only [lastEffective] at hw
+              cases hr : lastEffective r with
+              | some x => rw [hr] at hw; simp only [Option.some.injEq] at hw; subst hw; exact ih x hr
+              | none =>
+                rw [hr] at hw
+                simp only at hw
+                split at hw
+                · cases hw
+                · simp only [Option.some.injEq] at hw; subst hw; assumption
+          exact this vs v hl hv
+      · right; right
+        unfold declOf at hs
+        cases hv : setVersion v with
+        | unset => simp [hv] at hs
+        | panic => simp [hv] at hs
+        | set s' =>
+          simp only [hv, Option.some.injEq] at hs
+          subst hs
+          have hh := (spec.2.1 s').mp hv
+          exact ⟨v, s'.major, s'.minor, s'.patch, rfl, hh.2.2, p, by rw [hc, hM, hm]⟩
+    · rintro (h | h | ⟨w, M, m, p, hw, hv, p', hc⟩)
+      · exact Or.inl h
+      · right; left
+        subst h
+        decide
+      · right; right
+        subst hw
+        have hne : v ≠ [] := by
+          rw [hv]; unfold render
+          intro h0
+          have := congrArg List.length h0
+          simp at this
+        have hset : setVersion v = .set { text := v, major := M, minor := m, patch := p } :=
+          (spec.2.1 _).mpr ⟨hne, rfl, hv⟩
+        exact ⟨{ text := v, major := M, minor := m, patch := p }, by simp [declOf, hset], M, m, p', hc, rfl, rfl⟩
+
+/-! ### The guard is not masked by parameter binding -/
+
+/-- **version_refusal_not_masked** — whatever else is wrong with the request's parameters (a
+defect detected after the guard), a version the guard refuses is answered with the
+ProtocolVersionError; only defects detected before the guard (framing, unknown method, …) take
+precedence. -/
+theorem version_refusal_not_masked (srv : Option Server) (isDescribe : Bool) (c : Option Bytes)
+    (flaw : Stage) (hf : flaw ≠ .early) (hv : gate srv isDescribe c ≠ .allow) :
+    callOutcome srv isDescribe c flaw = .refused (gate srv isDescribe c) := by
+  unfold callOutcome
+  cases flaw with
+  | early => exact absurd rfl hf
+  | none => cases hg : gate srv isDescribe c <;> simp_all
+  | late => cases hg : gate srv isDescribe c <;> simp_all
+
+theorem callOutcome_dispatched_iff (srv : Option Server) (isDescribe : Bool) (c : Option Bytes)
+    (flaw : Stage) :
+    callOutcome srv isDescribe c flaw = .dispatched ↔
+      flaw = .none ∧ gate srv isDescribe c = .allow := by
+  unfold callOutcome
+  cases flaw <;> cases hg : gate srv isDescribe c <;> simp_all
+
 /-! ### Non-vacuity (evaluating the executable definitions) -/
 
 /-- "1.2.0" -/
@@ -482,5 +614,14 @@ example : check { text := [], major := 2 ^ 63 - 1, minor := 1, patch := 0 }
     (some [57, 57, 57, 57, 57, 57, 57, 57, 57, 57, 57, 57, 57, 57, 57, 57, 57, 57, 57, 57, 57, 57, 57, 46, 49, 46, 48]) = .serverTooOld := by decide
 example : gate (some exServer) true (some [48, 49, 46, 50, 46, 48]) = .allow ∧ gate none false none = .allow := by decide
 example : setVersion [48, 49, 46, 50, 46, 48] = .panic ∧ setVersion [] = .unset := by decide
+
+/-- declare, then opt out: no declared version, everything admitted (seeded change C10-e). -/
+example : configureSeq [[49, 46, 50, 46, 48], []] = none ∧ gate (configureSeq [[49, 46, 50, 46, 48], []]) false none = .allow ∧
+    configureSeq [[49, 46, 50, 46, 48], [48, 49, 46, 50, 46, 48]] = some exServer ∧ configureSeq [[48, 49, 46, 50, 46, 48]] = none ∧
+    configureSeq [[], [50, 46, 48, 46, 48], [49, 46, 50, 46, 48]] = some exServer := by decide
+/-- a refused version wins over a parameter-binding defect, not over a framing defect. -/
+example : callOutcome (some exServer) false (some [49, 46, 51, 46, 48]) .late = .refused .serverTooOld ∧
+    callOutcome (some exServer) false (some [49, 46, 51, 46, 48]) .early = .otherError ∧
+    callOutcome (some exServer) false (some [49, 46, 50, 46, 48]) .late = .otherError := by decide
 
 end Vgi.Props.C10
